@@ -95,7 +95,7 @@ Proof. exact filter_expr_path_continues_from_filtered. Qed.
     nearest ancestor is position 1 on the reverse axis, [2.5] selects nothing *)
 Definition ex_doc : anode :=
   build [EvStart (QN [] [97%N]); EvStart (QN [] [98%N]); EvStart (QN [] [99%N]); EvEnd; EvEnd; EvEnd].
-Definition ex_env : env := Env ex_doc [] [] [] [].
+Definition ex_env : env := Env ex_doc [] [] [] [] false.
 Example C02_example_reverse_axis_position :
   exec ex_env (EPath true [SAxis Descendant (NTName [99%N]) [];
                            SAxis Ancestor NTAny [ENum [49%N]]]) = Ok (VNodes [[SCh 0; SCh 0]]) /\
